@@ -126,7 +126,7 @@ def cmd_run(targets, tier, all_checks, seeds):
         rp = os.path.join(dst, "result.json")
         if os.path.exists(rp):
             prev = json.load(open(rp))
-        prev[tier + ("-all" if all_checks else "")] = res
+        prev[tier + ("-all" if all_checks else "") + ("" if seeds == [0] else "-seeds" + ",".join(map(str, seeds)))] = res
         json.dump(prev, open(rp, "w"), indent=1)
         print(pid, x, ("PATCH DOES NOT APPLY" if res.get("error") else ("caught" if res["caught_by_own_check"] else "MISSED")), "by", res["caught_by"],
               "" if res["caught_with_failing_input"] or not res["caught_by_own_check"] else "(no failing input)")
